@@ -85,7 +85,7 @@ impl ConcOutcome {
 pub const STEP_LIMIT_MSG: &str = "VF_STEP_LIMIT";
 /// Bound for a call running alone (C21). The largest solo call observed is a few hundred steps.
 pub const SOLO_BOUND: u64 = 20_000;
-const MAX_STEPS: u64 = 400_000;
+const MAX_STEPS: u64 = 100_000;
 
 #[derive(Clone, Debug, PartialEq, Eq, Hash)]
 enum InFlight {
@@ -429,7 +429,10 @@ impl Exec {
         let t = self.cur;
         if self.finishing {
             self.finishing_steps += 1;
-            if self.finishing_steps > MAX_STEPS {
+            if self.finishing_steps > MAX_STEPS && atomic {
+                // unwind out of the call that does not finish (caught by its `guarded`);
+                // later calls get a fresh budget
+                self.finishing_steps = 0;
                 panic!("{STEP_LIMIT_MSG}");
             }
             return None;
